@@ -6,6 +6,7 @@ var Registry = map[string]func(tier, replay string) int{
 	"C02": RunC02,
 	"C03": RunC03,
 	"C06": RunC06,
+	"C07": RunC07,
 	"C08": RunC08,
 	"C09": RunC09,
 	"C10": RunC10,
